@@ -115,6 +115,16 @@ Definition run_SRP_be (be : backend) : runner := fun op a =>
           | Ok (vf, _) => [st_ok; vf_v vf; vf_salt vf; vf_user vf] | _ => [st_panic] end
   | 12 => match calculate_client_public_key be (arg 0 a) (argN 1 a) (arg 2 a) with
           | Ok k => [st_ok; k] | Err e => [st_err (enc_pkerr e)] | Panic => [st_panic] end
+  (* bigint wrapper operations (hooks), C19 *)
+  | 20 => [st_ok; to_bytes_le be (from_bytes_le (arg 0 a))]
+  | 21 => match to_padded_32_byte_array_le be (from_bytes_le (arg 0 a)) with Ok x => [st_ok; x] | _ => [st_panic] end
+  | 22 => match modpow be (Z.sub (from_bytes_le (arg 0 a)) (from_bytes_le (arg 1 a))) (from_bytes_le (arg 2 a)) (from_bytes_le (arg 3 a)) with
+          | Ok r => [st_ok; to_bytes_le be r] | _ => [st_panic] end
+  | 23 => match rem (Z.add (Z.mul (from_bytes_le (arg 0 a)) (from_bytes_le (arg 1 a))) (from_bytes_le (arg 2 a))) (from_bytes_le (arg 3 a)) with
+          | Ok r => [st_ok; to_bytes_le be r] | _ => [st_panic] end
+  | 24 => match rem (from_bytes_le (arg 0 a)) (from_bytes_le (arg 1 a)) with
+          | Ok r => [st_ok; [if is_zero (from_bytes_le (arg 0 a)) then 1 else 0]; [if is_zero r then 1 else 0]]
+          | _ => [st_panic] end
   | _ => [st_panic]
   end.
 Definition run_SRP : runner := run_SRP_be Default.
